@@ -41,6 +41,18 @@ CHECKS["C11"] = (
     "DESIGN.md §4 C11",
 )
 
+CHECKS["C01"] = (
+    "builder-graph search over abstract .osu documents (deviation- and depth-bounded) driven through the real reader/writer, plus complete (keys,x) table",
+    "Complete table of (keys 1..18, x -2..514) through the hit/hold item readers and writers; every .osu document with <=2/3 deviations "
+    "from a default chart over 13 feature axes (key count, x placement, times, beat lengths, meters, hitsound fields and files, metadata "
+    "text with ':'/non-ASCII/leading blanks/empty, numeric metadata, sample events, file structure) combined with element sequences "
+    "(hit, holds, tempo point, SVs, sample) up to depth 3/4 in a staircase of bounds; each document: read vs denotation known by "
+    "construction, write vs an independent .osu parser (<1 ms), read(write) and four generations without drift; constructor-built "
+    "charts with fractional/negative/huge times through the same cycle.",
+    "Bounded palettes; independent reference parser refs/osu.py encodes my reading of the v14 mania format (effects in {0,1}, types 1/128).",
+    "DESIGN.md §4 C01",
+)
+
 NOT_CLAIMED = {}
 
 
